@@ -355,4 +355,41 @@ theorem shape3_applyItem {c : Emf.Consts} {cfg : Config} {sw : Switches} (hc : C
         · simp only [g2, hw0st.2.1]; exact (hR0 _).1.symm
         · simp only [g3, hw0st.2.2]; exact (hR0 _).2.symm
 
+/-! ### the whole entry -/
+
+theorem routedTo_append (cfg : Config) (r : Option Key) (a b : List (Str × Metric F)) :
+    routedTo cfg r (a ++ b) = routedTo cfg r a ++ routedTo cfg r b := by
+  simp [routedTo]
+
+/-- the buffers after the whole entry -/
+theorem shape3_foldl {c : Emf.Consts} {cfg : Config} {sw : Switches} (hc : CRel c cfg sw)
+    (ops : FloatOps F) (txt : F → List Nat) {mult : Option Nat} (hm : multOk mult) (e : Entry F)
+    {w : Emf.Writer} {st : VState} (hsim : Sim w st)
+    {S Fd : List Nat} {Ds : List Decl} {ad : List (AEntry F)} (hS : Shape3 txt c w S Fd Ds ad)
+    (herr : (run cfg sw st e).errs = []) :
+    Shape3 txt c ((toEmfEntry ops txt e).foldl (Emf.applyItem c mult) w) (S ++ strBytes (strItems e))
+      (Fd ++ fieldBytes txt (fieldsOf ops mult (routedTo cfg none (metricItems e))))
+      (Ds ++ declsOf ops mult (routedTo cfg none (metricItems e))) (e.foldl (adStep cfg ops mult) ad) ∧
+    Rest c w ((toEmfEntry ops txt e).foldl (Emf.applyItem c mult) w) e := by
+  induction e generalizing w st S Fd Ds ad with
+  | nil =>
+    refine ⟨?_, ⟨rfl, rfl, (tsAfter_noItems _ _ rfl).symm, (edAfter_noItems c _ _ rfl).symm⟩⟩
+    exact hS.congr rfl rfl (by simp [strItems, strBytes]) (by simp [metricItems, routedTo, fieldsOf, fieldBytes])
+      (by simp [metricItems, routedTo, declsOf]) rfl
+  | cons it e ih =>
+    have sim1 := sim_applyItem hc ops txt mult hsim it
+    rw [run_cons] at herr
+    have hst1 : (stepItem cfg sw st it).errs = [] := errs_nil_of_run cfg sw _ e herr
+    have hw1 : (Emf.applyItem c mult w (toEmfItem ops txt it)).errors = [] := by
+      rw [sim1.v.errs, hst1]; rfl
+    obtain ⟨s1, r1⟩ := shape3_applyItem hc ops txt hm hS it hw1
+    obtain ⟨s2, r2⟩ := ih sim1 s1 herr
+    simp only [toEmfEntry, List.map_cons, List.foldl_cons] at s2 r2 ⊢
+    refine ⟨?_, ⟨r2.decl.trans r1.decl, r2.dbuf.trans r1.dbuf, ?_, ?_⟩⟩
+    · rw [strItems_cons, metricItems_cons, routedTo_append, fieldsOf_append, declsOf_append, fieldBytes_append,
+        strBytes_append]
+      exact s2.congr rfl rfl (by simp [List.append_assoc]) (by simp [List.append_assoc]) (by simp [List.append_assoc]) rfl
+    · rw [r2.ts, r1.ts, tsAfter_cons]
+    · rw [r2.ed, r1.ed, edAfter_cons]
+
 end EmfRefine
